@@ -158,15 +158,25 @@ def run(tier):
                 # configuration in the SMILES (the stereoisomer is not fully specified), so a re-parsed spelling may
                 # legitimately import another arrangement there; only the renumbering (same bond order) is compared
                 charged = any(a.GetFormalCharge() != 0 for a in iso.GetAtoms())
-                for v in range(n_var):
-                    kind = ("respell", "renumber", "shuffle-bonds")[v % 3]
-                    if charged and kind != "renumber":
+                ez = [b.GetIdx() for b in iso.GetBonds() if b.GetStereo() in (Chem.BondStereo.STEREOE, Chem.BondStereo.STEREOZ)]
+                for v in range(n_var + (1 if ez else 0)):
+                    kind = ("respell", "renumber", "shuffle-bonds")[v % 3] if v < n_var else "cis-trans-annotation"
+                    if charged and kind not in ("renumber", "cis-trans-annotation"):
                         kind = "renumber"
                     try:
                         if kind == "respell":
                             m2, how = rdk.respell(iso, rnd)
                         elif kind == "renumber":
                             m2, how = rdk.renumber(iso, rnd)
+                        elif kind == "cis-trans-annotation":
+                            # the same configuration written with RDKit's other pair of labels (what its non-legacy stereo
+                            # perception produces): STEREOZ = STEREOCIS, STEREOE = STEREOTRANS over the same stereo atoms
+                            m2 = Chem.Mol(iso)
+                            for bi in ez:
+                                b2 = m2.GetBondWithIdx(bi)
+                                b2.SetStereo(Chem.BondStereo.STEREOCIS if b2.GetStereo() == Chem.BondStereo.STEREOZ
+                                             else Chem.BondStereo.STEREOTRANS)
+                            how = "STEREOCIS/STEREOTRANS"
                         else:
                             m2, how = rdk.respell(rdk.renumber(iso, rnd)[0], rnd)
                         if m2 is None:
